@@ -487,7 +487,14 @@ func (o *oracle) leakDemanded(a *allocT) bool {
 	}
 	switch a.owner.kind {
 	case ownPod:
-		return !w.viewJustifies(w.apiPods[podNS+"/"+a.pod], a)
+		v := w.apiPods[podNS+"/"+a.pod]
+		if v != nil && len(v.ips) == 0 {
+			// A pod of that name exists and has not reported any address: the collector cannot tell whether the
+			// address is its (documented allowance); when the allocation's node is gone it cannot even compare
+			// node names.  Not demanded, whatever node that pod is on.
+			return false
+		}
+		return !w.viewJustifies(v, a)
 	case ownTunnel:
 		n := a.owner.node
 		return !n.alive && !n.calicoPresent
